@@ -63,10 +63,13 @@ Definition dsf_save (f : list Z) (tag : list Z) : result (list Z) :=
   if negb (fits64 total) then Raise EStruct else
   Ok (patch f1 0 (dsd_header total ptr))).
 
-Definition dsf_padinfo (pa : Z * Z) (framedata : list Z) : Z * Z := pad_info framedata (snd pa) (snd pa).
+(* trailing size: nothing follows the tag (start = pointer, available = extent to EOF) *)
+Definition dsf_trailing (f : list Z) (pa : Z * Z) : Z := trailing_size (zlen f) (fst pa) (snd pa).
+Definition dsf_padinfo (f : list Z) (pa : Z * Z) (framedata : list Z) : Z * Z :=
+  pad_info framedata (snd pa) (dsf_trailing f pa).
 Definition dsf_save_cb (f : list Z) (framedata : list Z) (v2_version : Z) (cb : Z -> Z -> Z) : result (list Z) :=
   rbind (dsf_target f) (fun pa =>
-  rbind (id3_prepare framedata v2_version cb (snd pa) (snd pa)) (fun tag => dsf_save f tag)).
+  rbind (id3_prepare framedata v2_version cb (snd pa) (dsf_trailing f pa)) (fun tag => dsf_save f tag)).
 
 (* module-level delete(filething) *)
 Definition dsf_delete (f : list Z) : result (list Z) :=
